@@ -15,7 +15,7 @@ EXHAUSTIVE = True
 EXHAUSTIVE_NOTE = ("the linear map tensor -> returned component is evaluated on all 21 basis tensors for all 15 "
                    "shear keys (complete for the tensor argument by linearity); strains are sampled")
 RULE = ("(key, basis tensor) pairs enumerated completely, then Hypothesis draws coefficient vectors (+-1e3 on the 21 keys) "
-        "and positive strain triples (0.01..10, 1-4 volumes, equal pairs included); non-trivial = the basis tensor "
+        "and positive strain triples (0.01..10, 1-4 volumes, equal pairs included; a quarter as whole-number integer arrays); the same solver object is evaluated three times; non-trivial = the basis tensor "
         "enters the original-frame or the rotated-frame energy of that key / a random combination; distinct by (key, tensor, strain)")
 ASSUMPTIONS = [
     "any orthonormal eigenbasis of the fictitious strain is accepted as the rotated frame (validated, then used by the reference)",
@@ -107,8 +107,13 @@ def solve_with_reference(ctx, U, key, Ckeys, strain, case):
     arr = np.asarray(strain, dtype=float)
     if case.get("single_triple") and arr.ndim == 2:
         arr = arr[0]                       # the constructor is annotated Tuple[float, float, float]: one triple of shape (3,)
-    buf = _BUFFERS.setdefault(arr.shape, np.empty(arr.shape))
-    buf[...] = arr
+    if case.get("int_strain"):
+        # whole-number triples such as (1, 2, 3) handed over as an integer array
+        buf = np.array(arr, dtype=np.int64)
+        arr = buf.astype(float)
+    else:
+        buf = _BUFFERS.setdefault(arr.shape, np.empty(arr.shape))
+        buf[...] = arr
     obj = ctx.observe(Shear, buf, ckey, _bucket="C03/ctor", _case=case)
     T, D = ctx.observe(frame_checks, ctx, obj, key, arr if arr.ndim == 1 else strain, case, _bucket="C03/frame-crash", _case=case)
     C = tensor_from_keys(Ckeys)
@@ -130,6 +135,13 @@ def solve_with_reference(ctx, U, key, Ckeys, strain, case):
     obj.modulus = {U.c_(*k): Ckeys.get(k, 0.0) for k in req_set}
     obj.modulus_rotated = {U.c_(*k): Crot[k] for k in rot_set}
     res = ctx.observe(obj.get_target_elastic_modulus, _bucket="C03/solve-crash", _case=case)
+    # the solver object answers the same question the same way a second time, also after the (same) moduli are assigned again
+    res2 = ctx.observe(obj.get_target_elastic_modulus, _bucket="C03/solve-crash", _case=case)
+    obj.modulus = {U.c_(*k): Ckeys.get(k, 0.0) for k in req_set}
+    obj.modulus_rotated = {U.c_(*k): Crot[k] for k in rot_set}
+    res3 = ctx.observe(obj.get_target_elastic_modulus, _bucket="C03/solve-crash", _case=case)
+    if not (np.array_equal(np.asarray(res), np.asarray(res2), equal_nan=True) and np.array_equal(np.asarray(res), np.asarray(res3), equal_nan=True)):
+        raise PropertyViolation("C03/second-evaluation", "the same solver returns %r, then %r, then %r for %s" % (res, res2, res3, _vk(key)), case)
     res = np.asarray(res)
     if np.iscomplexobj(res):
         if np.max(np.abs(res.imag)) > 0:
@@ -161,12 +173,15 @@ def random_cases(draw):
     coefs = draw(st.lists(st.floats(-1e3, 1e3), min_size=21, max_size=21))
     nv = draw(st.integers(1, 4))
     rows = []
+    int_strain = draw(st.sampled_from([False, False, False, True]))
+    num = st.integers(1, 9).map(float) if int_strain else st.floats(0.01, 10.0)
     for _ in range(nv):
-        a = draw(st.floats(0.01, 10.0))
-        b = draw(st.one_of(st.just(a), st.floats(0.01, 10.0)))
-        c = draw(st.one_of(st.just(a), st.just(b), st.floats(0.01, 10.0)))
+        a = draw(num)
+        b = draw(st.one_of(st.just(a), num))
+        c = draw(st.one_of(st.just(a), st.just(b), num))
         rows.append([a, b, c])
-    return {"key": _vk(key), "coefs": coefs, "strain": rows, "single_triple": draw(st.booleans()), "debug_log": draw(st.booleans())}
+    return {"key": _vk(key), "coefs": coefs, "strain": rows, "single_triple": draw(st.booleans()), "debug_log": draw(st.booleans()),
+            "int_strain": int_strain}
 
 
 def random_oracle(ctx, case):
@@ -199,7 +214,8 @@ def sub_random(ctx):
         random_oracle(ctx, case)
         ctx.case({"key": case["key"], "coefs": case["coefs"][:3] + ["..."], "strain": case["strain"]}, True,
                  classes=["random", "key-" + case["key"], "single-triple" if case.get("single_triple") else "strain-table",
-                          "debug-logging" if case.get("debug_log") else "default-logging"], key=case)
+                          "debug-logging" if case.get("debug_log") else "default-logging",
+                          "integer-strain-array" if case.get("int_strain") else "float-strain-array"], key=case)
 
     ctx.run_given(body, random_cases(), max_examples=ctx.n(400, 40000))
 
